@@ -12,7 +12,7 @@ import (
 
 func init() {
 	Register("C07", "Decides structural necessary conditions of allOf inheritance: (eq) equality methods of constraints read every field that carries meaning - violated by AdditionalProperties.IsEqual, known finding; (copy) inherited children are deep copies marked with the source type; (req) required keys of the source are propagated; (cycle) the compile recursion is guarded by test-insert-recurse-delete; (refuse) each documented refusal is raised on its guard; (det) no map-order dependence in the allOf compiler. Does NOT decide the merged key set for arbitrary inheritance DAGs nor OpenAPI listing equality.",
-		c07eq, c07copy, c07share, c07oalist, c07req, c07cycle, c07refuse, c07walk, func(c *core.Ctx) {
+		c07eq, c07copy, c07share, c07oalist, c07index, c07req, c07cycle, c07refuse, c07walk, func(c *core.Ctx) {
 			runMapRange(c, "C07.det", []string{"allOfConstraintCompiler", "CompileAllOf", "AddUnnamedTypes"}, 3)
 		})
 }
@@ -483,6 +483,27 @@ func c07oalist(c *core.Ctx) {
 	c.Check(reaches(pi, ao), R, "PropertiesInfos->allOf", c.P.Pos(pi.Pos()), "PropertiesInfos adds the inherited properties (calls allOf)", "the listing no longer includes inherited properties")
 	c.Check(reaches(ao, de), R, "allOf->dereference", c.P.Pos(ao.Pos()), "allOf resolves the named types", "the named types of allOf are not resolved")
 	c.Check(reaches(de, pi), R, "dereference->PropertiesInfos", c.P.Pos(de.Pos()), "the properties of a named type are listed by PropertiesInfos again (transitive through the type's own allOf)", "the properties of an inherited type are listed without following that type's own allOf: with a chain of two or more inheritance levels the OpenAPI listing shows fewer keys than Check() and Example() use")
+	// dereferenceUserTypeProperties: every resolved schema contributes its PropertiesInfos(), no skipping
+	if dd := c.P.FindDecl("(openapi.ObjectInfo).dereferenceUserTypeProperties"); dd != nil {
+		bad := ""
+		ast.Inspect(dd.Decl.Body, func(n ast.Node) bool {
+			if rs, ok := n.(*ast.RangeStmt); ok {
+				ast.Inspect(rs.Body, func(m ast.Node) bool {
+					switch y := m.(type) {
+					case *ast.BranchStmt:
+						bad = y.Tok.String()
+					case *ast.ReturnStmt:
+						bad = "return"
+					}
+					return true
+				})
+			}
+			return true
+		})
+		c.Check(bad == "", R, "dereference:no-skip", c.P.Pos(dd.Decl.Pos()), "every schema resolved for an inherited type is listed (no continue/break in the loop)", "some inherited types are skipped (`"+bad+"`): an intermediate type without own properties still has its own allOf")
+	} else {
+		c.Unresolved(R, "(openapi.ObjectInfo).dereferenceUserTypeProperties")
+	}
 	// allOf: both token kinds, loop without early exit
 	d := c.P.FindDecl("(openapi.ObjectInfo).allOf")
 	if d == nil {
@@ -520,4 +541,42 @@ func c07oalist(c *core.Ctx) {
 		return true
 	})
 	c.Check(cases["schema.TokenTypeShortcut"] && cases["schema.TokenTypeArray"] && loopBad == "", R, "allOf:forms", c.P.Pos(d.Decl.Pos()), "allOf handles `allOf: \"@a\"` and `allOf: [\"@a\", \"@b\"]`, every list item", core.F("a form of the allOf rule is not followed (shortcut: %v, list: %v, loop exit: %q)", cases["schema.TokenTypeShortcut"], cases["schema.TokenTypeArray"], loopBad))
+}
+
+// c07index: keys and children of an object stay aligned.
+func c07index(c *core.Ctx) {
+	const R = "C07.index"
+	c.Rule(R, "every call of ObjectNodeKeys.Set passes a key record built on the spot whose Index is len(<the same object>.children): the position the child is about to take in THIS object. Child(key), ChildByRawKey and the AST walk resolve a key to children[Index]; a key record copied from another object (an inherited property keeps the index it had in its source type) makes them return another key's node. The same alignment is the invariant behind the tabled element accesses children[i.Index] / Data[i]")
+	c.Floor(R, 1)
+	n := 0
+	for _, cs := range c.P.Calls() {
+		if core.FullName(core.Callee(cs.Pkg, cs.Call)) != "(*notations/jschema/ischema.ObjectNodeKeys).Set" || len(cs.Call.Args) != 1 {
+			continue
+		}
+		n++
+		fn := core.DeclName(cs.Pkg, cs.Decl)
+		key := core.F("%s:keys.Set#%d", fn, n)
+		pos := c.P.Pos(cs.Call.Pos())
+		se, _ := cs.Call.Fun.(*ast.SelectorExpr)
+		recv := ""
+		if se != nil {
+			recv = strings.TrimSuffix(core.ExprStr(se.X), ".keys")
+		}
+		ok := false
+		if cl, isLit := ast.Unparen(cs.Call.Args[0]).(*ast.CompositeLit); isLit {
+			for _, el := range cl.Elts {
+				if kv, isKV := el.(*ast.KeyValueExpr); isKV && core.ExprStr(kv.Key) == "Index" && core.ExprStr(kv.Value) == "len("+recv+".children)" {
+					ok = true
+				}
+			}
+		}
+		if r, isT := map[string]string{
+			"(*notations/jschema/ischema.ObjectNode).copyKeysFrom":          "whole-object copy (Copy): all key records of `from` are re-registered in order after all its children were copied in order by copyChildrenFrom, so every Index names the same position in the copy",
+			"(*notations/jschema/ischema.ObjectNode).copyLowercaseKeysFrom": "whole-object copy (CopyAndLowercaseKeys): as copyKeysFrom",
+		}[fn]; isT && !ok {
+			c.Tabled(R, key, pos, "keys.Set("+core.ExprStr(cs.Call.Args[0])+") in "+fn, r)
+			continue
+		}
+		c.Check(ok, R, key, pos, "keys.Set("+clip(core.ExprStr(cs.Call.Args[0]), 80)+") in "+fn, "the key record is not built with Index = len("+recv+".children): keys and children of the object can get out of step")
+	}
 }
